@@ -1,6 +1,5 @@
 import KsiVerif.Util.DriverMain
 import KsiVerif.Model.Async
-import KsiVerif.Model.PduMac
 /-! Model driver for C13 — protocol in harness/exec_c13.c. -/
 open KsiVerif KsiVerif.Tcp KsiVerif.Async
 
@@ -155,23 +154,9 @@ def handle (inp out : String) : String :=
   | [op, cache, rcvT, sndT, steps] =>
     if op != "async" && op != "asyncx" then "skip unknown-op" else
     let ext := op == "asyncx"
-    -- the extending service differs from the signing one in how a service status becomes an error code: the model's
-    -- (aggregator) codes are translated through the statuses this history uses; a history in which that is ambiguous is skipped
+    -- the extending service differs from the signing one in how a service status becomes an error code (`State.conv`)
     let codes : List Nat := (steps.splitOn ",").filterMap fun st => match st.splitOn ":" with
       | ["srv", "status", _, c] => c.toNat? | ["srv", "errpdu", _, c] => c.toNat? | _ => none
-    let table : List (Nat × Nat) := (codes.map fun c => (Async.convertStatus c, PduMac.convExt c)).eraseDups
-    let ambiguous := ext && table.any fun (a, e) => table.any fun (a', e') => a == a' && e != e'
-    if ambiguous then "skip ambiguous-status-set" else
-    let fixTok (t : String) : String :=
-      if !ext then t else
-      match t.splitOn ":" with
-      | [r, h, "5", er, p, w] =>
-        (match er.toNat? with
-         | some a => (match table.find? (·.1 == a) with
-            | some (_, e) => ":".intercalate [r, h, "5", toString e, p, w]
-            | none => t)
-         | none => t)
-      | _ => t
     match cache.toNat?, rcvT.toNat?, sndT.toNat? with
     | some c, some r, some sn =>
       let ow := words out
@@ -180,9 +165,9 @@ def handle (inp out : String) : String :=
          | some why => s!"specfail asyncc {why} "
          | none => s!"ok asyncc:{((steps.splitOn ",").filter (fun x => x == "ac" || x == "cf" || x.startsWith "srv:")).map (fun x => (x.splitOn ":").getD 1 x) |>.eraseDups |> ",".intercalate}")
       else
-      let sm0 : Sim := { a := Async.init c, implS := ow.filter (·.startsWith "S") }
+      let sm0 : Sim := { a := { Async.init c with ext := ext }, implS := ow.filter (·.startsWith "S") }
       let sm := (steps.splitOn ",").foldl (stepSim r sn) sm0
-      let ms := if sm.toks.isEmpty then "-" else " ".intercalate (sm.toks.map fixTok)
+      let ms := if sm.toks.isEmpty then "-" else " ".intercalate sm.toks
       -- oracle on the implementation's own output (independent of the model's counters):
       --  * a handle is never handed back twice, only accepted handles are handed back
       --  * 'cache full' exactly when outstanding = configured size
@@ -263,7 +248,7 @@ def handle (inp out : String) : String :=
         ow.findSome? fun t => match t.splitOn ":" with
           | [_, _, "5", er, _, _] =>
             (match er.toNat? with
-             | some e => if 0x400 ≤ e && e < 0x600 && !(codes.any fun c => PduMac.convExt c == e) then some s!"request-failed-with-error-{e}-which-is-not-the-extender's-meaning-of-any-status-the-server-sent" else none
+             | some e => if 0x400 ≤ e && e < 0x600 && !(codes.any fun c => Async.convertStatusExt c == e) then some s!"request-failed-with-error-{e}-which-is-not-the-extender's-meaning-of-any-status-the-server-sent" else none
              | none => none)
           | _ => none
       let spec := (spec.orElse fun _ => extSpec).orElse fun _ => statusOwn
